@@ -189,6 +189,9 @@ func codeErr2(code int64) error {
 		return nil
 	case code == -1:
 		return io.EOF
+	case code == 2:
+		// Unknown, as a plain error value that WRAPS io.EOF: only io.EOF itself is special
+		return fmt.Errorf("scripted failure while reading: %w", io.EOF)
 	}
 	return status.Error(codes.Code(uint32(code)), "scripted failure")
 }
@@ -299,6 +302,12 @@ func runScripts(o *hx.Out, r *hx.Rand, n int, allowBad bool) {
 				if kind == "SS" {
 					cs.SendMsg(&hx.Msg{})
 				}
+				// asking for the trailers before the stream has ended (right after opening it, between
+				// receives) yields nothing useful, and must not change what is reported at the end
+				earlyTrailer := i%3 == 1
+				if earlyTrailer {
+					cs.Trailer()
+				}
 				cs.CloseSend()
 				var early metadata.MD
 				if headerFirst {
@@ -307,6 +316,9 @@ func runScripts(o *hx.Out, r *hx.Rand, n int, allowBad bool) {
 				var msgs []string
 				var fin error
 				for {
+					if earlyTrailer {
+						cs.Trailer()
+					}
 					m := &hx.Msg{}
 					if fin = cs.RecvMsg(m); fin != nil {
 						break
@@ -329,7 +341,7 @@ func runScripts(o *hx.Out, r *hx.Rand, n int, allowBad bool) {
 				for _, h := range script {
 					st = append(st, h.coq())
 				}
-				desc := map[string]interface{}{"transport": t.name, "kind": kind, "header_before_first_recv": headerFirst, "handler_script": st, "handler_returns": code,
+				desc := map[string]interface{}{"transport": t.name, "kind": kind, "header_before_first_recv": headerFirst, "handler_script": st, "handler_returns": code, "trailer_asked_before_the_end": earlyTrailer,
 					"messages": msgs, "final": fmt.Sprint(fin), "header": hdr, "trailer": tlr}
 				o.Case("script_"+t.name, fmt.Sprintf("Script %s %s %s %s {| o_acks := %s; o_msgs := %s; o_fin := %s; o_hdr := %s; o_tlr := %s; o_hdr_early := %s; o_opts_ok := %s |}",
 					hx.B(http), hx.B(headerFirst), hx.List(st), hx.Z(code), acksTerm(acks), hx.List(msgs), finTerm(fin), pairsOf(hdr, known), pairsOf(tlr, known), pairsOf(early, known), hx.B(optsOK)), desc)
@@ -344,11 +356,15 @@ func runScripts(o *hx.Out, r *hx.Rand, n int, allowBad bool) {
 // unary calls: status code, message and details, headers and trailers, both transports
 func runUnaryStatus(o *hx.Out, r *hx.Rand, n int) {
 	var retErr error
+	var withResp bool // the failing handler also returns a (partial) response, as `return rsp, err` does
 	var hdrs, tlrs metadata.MD
 	svc := &hx.Svc{Unary: func(ctx context.Context, req *hx.Msg) (*hx.Msg, error) {
 		grpc.SetHeader(ctx, hdrs)
 		grpc.SetTrailer(ctx, tlrs)
 		if retErr != nil {
+			if withResp {
+				return &hx.Msg{Count: 9, Payload: []byte("partial")}, retErr
+			}
 			return nil, retErr
 		}
 		return &hx.Msg{}, nil
@@ -392,6 +408,7 @@ func runUnaryStatus(o *hx.Out, r *hx.Rand, n int) {
 				st = status.FromProto(sp)
 			}
 			retErr = st.Err()
+			withResp = i%3 == 1
 			wrapped := ""
 			if r.Chance(20) {
 				inner := []error{context.DeadlineExceeded, context.Canceled}[r.Intn(2)]
@@ -411,7 +428,11 @@ func runUnaryStatus(o *hx.Out, r *hx.Rand, n int) {
 			}
 			hdrs, tlrs = mdFromPairs(hp), mdFromPairs(tp)
 			var gh, gt metadata.MD
-			err := t.ch.Invoke(context.Background(), "/verif.Svc/U", &hx.Msg{}, &hx.Msg{}, grpc.Header(&gh), grpc.Trailer(&gt))
+			opts := []grpc.CallOption{grpc.Header(&gh), grpc.Trailer(&gt)}
+			if i%6 == 1 || i%6 == 2 { // without the trailer option the client may stop reading earlier
+				opts = opts[:1]
+			}
+			err := t.ch.Invoke(context.Background(), "/verif.Svc/U", &hx.Msg{}, &hx.Msg{}, opts...)
 			got := status.Convert(err)
 			wantMsg := strings.ToValidUTF8(msg, "�")
 			msgSame := got.Message() == msg || got.Message() == wantMsg
@@ -421,9 +442,9 @@ func runUnaryStatus(o *hx.Out, r *hx.Rand, n int) {
 				detSame = proto.Equal(a, got.Proto().Details[d])
 			}
 			hOK := pairsOf(gh, known) == pairsTermSorted(hp)
-			tOK := pairsOf(gt, known) == pairsTermSorted(tp)
+			tOK := len(opts) < 2 || pairsOf(gt, known) == pairsTermSorted(tp)
 			desc := map[string]interface{}{"transport": t.name, "code": code, "message": msg, "details": nd, "client_code": uint32(got.Code()), "client_message": got.Message(),
-				"headers_ok": hOK, "trailers_ok": tOK, "error_also_wraps": wrapped}
+				"headers_ok": hOK, "trailers_ok": tOK, "error_also_wraps": wrapped, "handler_also_returns_a_response": withResp, "trailer_option_passed": len(opts) == 2}
 			o.Case("unary_status_"+t.name, fmt.Sprintf("UnaryStatus %s %s %d %d %d %s %s %s %s", hx.B(http), hx.Z(code), cls, nd, uint32(got.Code()), hx.B(msgSame), hx.B(detSame), hx.B(hOK), hx.B(tOK)), desc)
 		}
 	}
